@@ -335,6 +335,9 @@ def select(scheds, tier, fam):
             mx = {json.dumps(h, sort_keys=True) for h in maximal([h for _, h, _ in items])}
             for it in items:
                 (mxs if json.dumps(it[1], sort_keys=True) in mx else rest).append(it)
+        # canonical order first: TLC's output order depends on its worker threads
+        mxs.sort(key=lambda it: json.dumps(it[:2], sort_keys=True))
+        rest.sort(key=lambda it: json.dumps(it[:2], sort_keys=True))
         rnd.shuffle(mxs)
         rnd.shuffle(rest)
         if tier == "quick":
